@@ -440,8 +440,24 @@ func (e *Engine) explain(id string, n, ok, known, viol int) string {
 }
 
 func (e *Engine) levelFor(id string) string {
-	if l, ok := propLevels[id]; ok {
-		return l
+	// the level written is the one claimed in MANIFEST.json (downgraded to "other" by the caller when something failed)
+	data, err := os.ReadFile(filepath.Join(verifDir, "MANIFEST.json"))
+	if err == nil {
+		var m struct {
+			Checks []struct {
+				PropertyID   string `json:"property_id"`
+				LevelClaimed struct {
+					Category string `json:"category"`
+				} `json:"level_claimed"`
+			} `json:"checks"`
+		}
+		if json.Unmarshal(data, &m) == nil {
+			for _, c := range m.Checks {
+				if c.PropertyID == id && c.LevelClaimed.Category != "" {
+					return c.LevelClaimed.Category
+				}
+			}
+		}
 	}
 	return "proof"
 }
